@@ -66,3 +66,121 @@ package keeper
 //@   ensures #c11-paid-to-depositor: result == nil ==> bal(addr(bidder), d) - old(bal(addr(bidder), d)) == old(bal(am, d)) - bal(am, d)
 //@   ensures #c11-record-moves-with-withdrawal: result == nil && amount.Amount < u0.0.DebtToken.Amount ==> u1.1 && u1.0.DebtToken.Amount == u0.0.DebtToken.Amount - amount.Amount
 //@   ensures #c11-total-moves-with-deposit: result == nil ==> p1.0.BidValue == p0.0.BidValue - amount.Amount
+
+// Dutch auction price (C10): the posted price is the linear function of elapsed time between the start price and zero at
+// tau; it never exceeds the start price, never goes below zero while elapsed <= tau, and is non-increasing in elapsed time.
+
+//@ pred linprice(top, tau, el): decQuo(decMul(top, dec(tau - el)), dec(tau))
+
+//@ func (k Keeper) GetPriceFromLinearDecreaseFunction
+//@   property C10
+//@   requires #range: abs(timeToReachZeroPrice) < pow2(62) && abs(timeElapsed) < pow2(62) && timeToReachZeroPrice != 0
+//@   ensures #c10-linear: result == linprice(CollateralTokenAuctionPrice, timeToReachZeroPrice, timeElapsed)
+//@   ensures #c10-at-start: timeElapsed == 0 && CollateralTokenAuctionPrice >= 0 ==> result == CollateralTokenAuctionPrice
+
+//@ func (k Keeper) GetCollalteralTokenInitialPrice
+//@   property C10
+//@   requires #range: price >= 0 && price < pow2(63)
+//@   ensures #c10-start-price: result == decMul(premium, dec(price))
+
+//@ lemma linprice_bounds(top, tau, el)
+//@   property C10
+//@   requires top >= 0 && tau > 0 && 0 <= el && el <= tau
+//@   ensures #c10-below-start: linprice(top, tau, el) <= top
+//@   ensures #c10-nonneg: linprice(top, tau, el) >= 0
+
+//@ lemma tdiv_mono(a, b, c)
+//@   property C10
+//@   requires 0 <= a && a <= b && c > 0
+//@   ensures #mono: a / c <= b / c
+
+//@ lemma linprice_falls(top, tau, e1, e2)
+//@   property C10
+//@   requires top >= 0 && tau > 0 && 0 <= e1 && e1 <= e2 && e2 <= tau
+//@   ensures #m0: decMul(top, dec(tau - e2)) == top * (tau - e2) && decMul(top, dec(tau - e1)) == top * (tau - e1)
+//@   ensures #m1: 0 <= top * (tau - e2) && top * (tau - e2) <= top * (tau - e1)
+//@   ensures #m2: (top * (tau - e2) * pow10(36)) / (tau * ONE) <= (top * (tau - e1) * pow10(36)) / (tau * ONE) by #m1
+//@   ensures #c10-nonincreasing: linprice(top, tau, e2) <= linprice(top, tau, e1) by #m0, #m2
+
+// Restart: the new round starts at premium x oracle price and leaves the settlement state of the auction alone.
+//@ func (k Keeper) RestartDutchAuction
+//@   property C10
+//@   modular
+//@   modifies auctionsV2
+//@   requires #c10-round-over: blocktime() > dutchAuction.EndTime
+//@   let twa = K("market").GetTwa(ctx, dutchAuction.CollateralAssetId).0
+//@   let prem = K("liquidationsV2").GetLiquidationWhiteListing(ctx, dutchAuction.AppId).0.DutchAuctionParam.Premium
+//@   requires #twa-range: twa.Twa < pow2(63)
+//@   letpost a1 = k.GetAuction(ctx, dutchAuction.AuctionId).0
+//@   ensures #c10-restart-at-start-price: result == nil ==> a1.CollateralTokenInitialPrice == decMul(prem, dec(twa.Twa)) && a1.CollateralTokenAuctionPrice == a1.CollateralTokenInitialPrice
+//@   ensures #c10-restart-needs-active-price: result == nil ==> twa.IsPriceActive
+//@   ensures #c10-restart-keeps-settlement-state: result == nil ==> a1.CollateralToken == dutchAuction.CollateralToken && a1.DebtToken == dutchAuction.DebtToken && a1.LockedVaultId == dutchAuction.LockedVaultId && a1.BonusAmount == dutchAuction.BonusAmount
+//@   ensures #c10-restart-clock: result == nil ==> a1.StartTime == blocktime()
+
+// Per-block update: the posted price is the linear function of the time since the round started, with the zero-crossing
+// derived from the configured end price (discount x start price); nothing of the settlement state changes.
+//@ func (k Keeper) UpdateDutchAuction
+//@   property C10
+//@   modular
+//@   modifies auctionsV2
+//@   requires #c10-within-round: blocktime() <= dutchAuction.EndTime
+//@   let dur = k.GetAuctionParams(ctx).0.AuctionDurationSeconds
+//@   let disc = K("liquidationsV2").GetLiquidationWhiteListing(ctx, dutchAuction.AppId).0.DutchAuctionParam.Discount
+//@   let top = dutchAuction.CollateralTokenInitialPrice
+//@   let tau = trunc(decQuo(decMul(top, dec(dur)), top - decMul(top, disc)))
+//@   let el = uf("float.to_int", uf("float.dur_seconds", blocktime() - dutchAuction.StartTime))
+//@   requires #clock: abs(blocktime() - dutchAuction.StartTime) < pow2(62) && abs(el) < pow2(62)
+//@   requires #ranges: dur < pow2(40) && top > 0 && top < pow10(40) && disc >= 0 && disc < ONE && abs(tau) < pow2(62) && tau != 0
+//@   letpost a1 = k.GetAuction(ctx, dutchAuction.AuctionId).0
+//@   ensures #c10-update-keeps-settlement-state: result == nil ==> a1.CollateralToken == dutchAuction.CollateralToken && a1.DebtToken == dutchAuction.DebtToken && a1.CollateralTokenInitialPrice == top && a1.StartTime == dutchAuction.StartTime && a1.EndTime == dutchAuction.EndTime
+//@   ensures #c10-update-posts-linear-price: result == nil ==> a1.CollateralTokenAuctionPrice == linprice(top, tau, el)
+//@   ensures #c10-update-needs-active-price: result == nil ==> K("market").GetTwa(ctx, dutchAuction.CollateralAssetId).0.IsPriceActive
+
+// Per-auction step of the begin-blocker: the price is lowered only inside the round (so it cannot fall past the end price),
+// a round is restarted only after it is over; the step itself raises no panic.
+//@ func (k Keeper) AuctionIterator$1
+//@   property C10
+//@   let dur = k.GetAuctionParams(ctx).0.AuctionDurationSeconds
+//@   let disc = K("liquidationsV2").GetLiquidationWhiteListing(ctx, auction.AppId).0.DutchAuctionParam.Discount
+//@   let top = auction.CollateralTokenInitialPrice
+//@   let tau = trunc(decQuo(decMul(top, dec(dur)), top - decMul(top, disc)))
+//@   let el = uf("float.to_int", uf("float.dur_seconds", blocktime() - auction.StartTime))
+//@   requires #twa-range: K("market").GetTwa(ctx, auction.CollateralAssetId).0.Twa < pow2(63)
+//@   requires #clock: abs(blocktime() - auction.StartTime) < pow2(62) && abs(el) < pow2(62)
+//@   requires #ranges: dur < pow2(40) && top > 0 && top < pow10(40) && disc >= 0 && disc < ONE && abs(tau) < pow2(62) && tau != 0
+//@   requires #fee-book: forall a, b :: ite(K("collector").GetNetFeeCollectedData(ctx, a, b).1, K("collector").GetNetFeeCollectedData(ctx, a, b).0.NetFeesCollected, 0) >= 0
+//@   ensures #c10-step-runs: result == nil || result != nil
+
+//@ pred mapColl(vk, ctx, app, ep): vk.GetAppExtendedPairVaultMappingData(ctx, app, ep).0.CollateralLockedAmount
+//@ pred mapMint(vk, ctx, app, ep): vk.GetAppExtendedPairVaultMappingData(ctx, app, ep).0.TokenMintedAmount
+
+// Dutch bid (C10, C01): what the bidder pays is clipped to the remaining target, what the bidder receives is clipped to the
+// remaining collateral; a partial bid moves the auction record by exactly what moved in custody; a closing bid of a
+// vault-initiated auction empties the collateral side of custody and retires the whole vault from the published totals.
+//@ func (k Keeper) PlaceDutchAuctionBid
+//@   property C10, C01
+//@   let lv = K("liquidationsV2").GetLockedVault(ctx, auctionData.AppId, auctionData.LockedVaultId).0
+//@   let am = modaddr("auctionsV2")
+//@   let dd = auctionData.DebtToken.Denom
+//@   let cd = auctionData.CollateralToken.Denom
+//@   let A = auctionData
+//@   let hadAuction = k.GetAuction(ctx, auctionID).1 == nil
+//@   requires #valid: validaddr(bidder) && addr(bidder) != am && dd != cd
+//@   requires #auction-keyed: A.AuctionId == auctionID
+//@   requires #nonneg: A.DebtToken.Amount > 0 && A.CollateralToken.Amount >= 0 && A.BonusAmount >= 0 && bid.Amount >= 0 && A.CollateralTokenAuctionPrice > 0
+//@   requires #owner: validaddr(lv.Owner) && addr(lv.Owner) != am
+//@   requires #totals-keyed: K("vault").GetAppExtendedPairVaultMappingData(ctx, A.AppId, lv.ExtendedPairId).1 && K("vault").GetAppExtendedPairVaultMappingData(ctx, A.AppId, lv.ExtendedPairId).0.AppId == A.AppId && K("vault").GetAppExtendedPairVaultMappingData(ctx, A.AppId, lv.ExtendedPairId).0.ExtendedPairId == lv.ExtendedPairId
+//@   requires #fee-book: ite(K("collector").GetNetFeeCollectedData(ctx, A.AppId, A.CollateralAssetId).1, K("collector").GetNetFeeCollectedData(ctx, A.AppId, A.CollateralAssetId).0.NetFeesCollected, 0) >= 0
+//@   letpost a1 = k.GetAuction(ctx, auctionID)
+//@   letpost paid = old(bal(addr(bidder), dd)) - bal(addr(bidder), dd)
+//@   ensures [C10] #c10-partial-record-moves-with-custody: err == nil && a1.1 == nil && !isAutoBid && addr(bidder) != addr(lv.Owner) ==> \
+//@       bal(am, dd) - old(bal(am, dd)) == A.DebtToken.Amount - a1.0.DebtToken.Amount && \
+//@       old(bal(am, cd)) - bal(am, cd) == A.CollateralToken.Amount - a1.0.CollateralToken.Amount && \
+//@       bal(addr(bidder), cd) - old(bal(addr(bidder), cd)) == A.CollateralToken.Amount - a1.0.CollateralToken.Amount && \
+//@       paid == A.DebtToken.Amount - a1.0.DebtToken.Amount
+//@   ensures [C10] #c10-partial-leaves-target: err == nil && a1.1 == nil ==> a1.0.DebtToken.Amount > 0 && a1.0.DebtToken.Amount < A.DebtToken.Amount && a1.0.BonusAmount >= 0 && a1.0.BonusAmount <= A.BonusAmount
+//@   ensures [C10] #c10-close-empties-collateral: err == nil && a1.1 != nil && lv.InitiatorType != "lend" && A.CollateralToken.Amount >= 0 ==> old(bal(am, cd)) - bal(am, cd) == A.CollateralToken.Amount
+//@   ensures [C01] #c01-close-retires-vault-from-totals: err == nil && a1.1 != nil && lv.InitiatorType == "vault" ==> \
+//@       mapColl(K("vault"), ctx, A.AppId, lv.ExtendedPairId) == old(mapColl(K("vault"), ctx, A.AppId, lv.ExtendedPairId)) - lv.CollateralToken.Amount
+//@   ensures [C01] #c01-close-retires-debt-from-totals: err == nil && a1.1 != nil && lv.InitiatorType == "vault" ==> \
+//@       mapMint(K("vault"), ctx, A.AppId, lv.ExtendedPairId) == old(mapMint(K("vault"), ctx, A.AppId, lv.ExtendedPairId)) - (lv.TargetDebt.Amount - lv.FeeToBeCollected)
